@@ -754,7 +754,7 @@ def enum_vals(tier):
 
 SUBS = [
     Sub('auto', check, gen=gen, quick=5000, thorough=20000,
-        floors={'exp-ok': 0.5, 'exp-err': 0.03, 'has-coalesce': 0.1, 'has-dict': 0.15, 'has-list': 0.1,
+        floors={'exp-ok': 0.5, 'exp-err': 0.02, 'has-coalesce': 0.05, 'has-dict': 0.12, 'has-list': 0.08,
                 'has-invoke': 0.03, 'invoke-derived-later': 0.004, 'has-ref': 0.03, 'nested-chain-sentinel': 0.02, 'composition-checked': 0.01}),
     Sub('val-identity', check_val_identity, enum=enum_vals),
     fuzzrun.fuzz_sub('fuzz-auto', 'hyp:c03:auto', runs=30000, campaigns=4, replay_sub='auto'),
